@@ -408,7 +408,7 @@ func evictWorld(shape string, n int) (*c10h.World, *c10h.UTx, []string) {
 			sum += 100
 			prev = name
 		}
-	case "fan": // A with n-1 outputs, one child each
+	case "fan", "fan2": // A with n-1 outputs, one child each (fan2: plus a second, unrelated conflict B)
 		w.Add("A", []c10h.I{{From: "K0", Seq: c10h.RBFMax}}, n-1, c10h.KTrue, 2000)
 		pre = append(pre, "A")
 		sum = 2000
@@ -420,6 +420,15 @@ func evictWorld(shape string, n int) (*c10h.World, *c10h.UTx, []string) {
 		}
 	}
 	w.SmallRest = 0
+	if shape == "fan2" {
+		// the replacement's SECOND input conflicts with B: the conflict set is the
+		// package of n below K0 plus B, whatever order the inputs are walked in
+		w.Add("B", []c10h.I{{From: "K1", Seq: c10h.RBFMax}}, 2, c10h.KTrue, 100)
+		pre = append(pre, "B")
+		sum += 100
+		rt := w.Add("R", []c10h.I{{From: "K0", Seq: c10h.Final}, {From: "K1", Seq: c10h.Final}}, 2, c10h.KTrue, sum+200)
+		return w.Seal(), rt, pre
+	}
 	rt := w.Add("R", []c10h.I{{From: "K0", Seq: c10h.Final}}, 2, c10h.KTrue, sum+71)
 	return w.Seal(), rt, pre
 }
@@ -438,8 +447,8 @@ func runEvict(shape string, n int, call int) (verdict string, accepted bool, har
 			return "", false, fmt.Sprintf("pre-state transaction %s refused: %v", name, err)
 		}
 	}
-	if s.MP.Count() != n {
-		return "", false, fmt.Sprintf("pre-state has %d transactions, wanted %d", s.MP.Count(), n)
+	if s.MP.Count() != len(pre) {
+		return "", false, fmt.Sprintf("pre-state has %d transactions, wanted %d", s.MP.Count(), len(pre))
 	}
 	if v := s.CheckState(false); v != "" {
 		return "", false, "pre-state: " + v
@@ -454,8 +463,12 @@ func runEvict(shape string, n int, call int) (verdict string, accepted bool, har
 
 func evictLimit(r *ev.Run) {
 	res := map[string]interface{}{}
-	for _, shape := range []string{"chain", "fan"} {
+	for _, shape := range []string{"chain", "fan", "fan2"} {
 		for _, n := range []int{99, 100, 101, 102} {
+			total := n
+			if shape == "fan2" {
+				n-- // the package below K0 is one smaller, B makes up for it
+			}
 			for _, call := range []int{c10h.KPTOrphan, c10h.KMAT} {
 				v, acc, h := runEvict(shape, n, call)
 				if h != "" {
@@ -469,7 +482,7 @@ func evictLimit(r *ev.Run) {
 					r.Violation(fmt.Sprintf("evict-limit/%s/%s/n=%d", classOf(v), shape, n), fmt.Sprintf("replacement evicting %d transactions (%s): %s", n, shape, v),
 						replay{Scenario: "evict-limit", Shape: shape, N: n})
 				}
-				if n <= 100 && !acc && v == "" {
+				if total <= 100 && !acc && v == "" {
 					r.Broken("evict-limit %s/%d: a replacement on its exact fee threshold evicting %d <= 100 transactions was refused: the harness does not reach the limit", shape, n, n)
 				}
 			}
